@@ -23,9 +23,10 @@
 EXTENDS SpiffeContract
 
 CONSTANTS NReady, NGet, NCons,  \* pure Ready callers, pure Get callers, consumers (Ready then Get)
-          MaxObs,               \* extra GetX509SVID calls (observers) over the whole run
+          MaxObs,               \* > 0: the pure Get callers call again and again (observers)
           GetFix, Variant, Dir,
           Scripts,              \* set of issuer scripts: sequences of [kind, nb, na] (validity relative to the answer time)
+          MaxTicks,             \* a behaviour is explored up to Min(Horizon, MaxTicks * its largest step)
           StepSets, Horizon     \* sets of clock steps (s) - a behaviour draws its steps from one of them - and the last instant explored
 
 RIds == 1..(NReady + NCons)        \* Ready callers; NReady+k is consumer k
@@ -34,8 +35,8 @@ IsCons(g) == g > NGet
 ConsReady(g) == NReady + (g - NGet)
 
 VARIABLES c, script, now, pcRun, rw, readyCh, cur, nreq, fetched, renew, target, files,
-          pcR, pcG, gcall, ng, q, steps, seen
-vars == <<c, script, now, pcRun, rw, readyCh, cur, nreq, fetched, renew, target, files, pcR, pcG, gcall, ng, q, steps, seen>>
+          pcR, pcG, q, steps, seen
+vars == <<c, script, now, pcRun, rw, readyCh, cur, nreq, fetched, renew, target, files, pcR, pcG, q, steps, seen>>
 
 LongOK == [kind |-> "ok", nb |-> 0, na |-> 4 * Horizon + 100000]
 Answer(n) == IF n <= Len(script) THEN script[n] ELSE LongOK
@@ -45,7 +46,7 @@ Half(nb, na) == nb + ((na - nb) \div 2)
 Init == /\ script \in Scripts /\ steps \in StepSets /\ seen = 0 /\ c = CReset(Dir) /\ now = 0 /\ pcRun = "idle"
         /\ rw = [w |-> FALSE, ww |-> FALSE, rd |-> {}] /\ readyCh = FALSE /\ cur = 0 /\ nreq = 0
         /\ fetched = [nb |-> 0, na |-> 0] /\ renew = 0 /\ target = 0 /\ files = 0
-        /\ pcR = [r \in RIds |-> "idle"] /\ pcG = [g \in GIds |-> "idle"] /\ gcall = [g \in GIds |-> 0] /\ ng = 0 /\ q = FALSE
+        /\ pcR = [r \in RIds |-> "idle"] /\ pcG = [g \in GIds |-> "idle"] /\ q = FALSE
 
 FilesEv == IF files = 0 THEN [ev |-> "files", set |-> "none", key |-> 0, cert |-> 0, ca |-> 0]
            ELSE [ev |-> "files", set |-> "set", key |-> IF Variant = "keyReuse" THEN 1 ELSE files, cert |-> files, ca |-> files]
@@ -54,16 +55,16 @@ Emit2(e1, e2) == c' = CNext(CNext(c, e1), e2)
 
 (* ------------------------------ Run ------------------------------ *)
 RunCall == /\ pcRun = "idle" /\ pcRun' = "beforeLock" /\ Emit([ev |-> "run_call"]) /\ q' = FALSE
-           /\ UNCHANGED <<seen, steps, script, now, rw, readyCh, cur, nreq, fetched, renew, target, files, pcR, pcG, gcall, ng>>
+           /\ UNCHANGED <<seen, steps, script, now, rw, readyCh, cur, nreq, fetched, renew, target, files, pcR, pcG>>
 RunLockReq == /\ pcRun = "beforeLock" /\ pcRun' = "lockWait" /\ rw' = [rw EXCEPT !.ww = TRUE]
               /\ readyCh' = (IF Variant = "readyEarly" THEN TRUE ELSE readyCh) /\ q' = FALSE
-              /\ UNCHANGED <<seen, steps, c, script, now, cur, nreq, fetched, renew, target, files, pcR, pcG, gcall, ng>>
+              /\ UNCHANGED <<seen, steps, c, script, now, cur, nreq, fetched, renew, target, files, pcR, pcG>>
 LockAcq(from, to) == /\ pcRun = from /\ rw.rd = {} /\ pcRun' = to /\ rw' = [rw EXCEPT !.w = TRUE, !.ww = FALSE] /\ q' = FALSE
-                     /\ UNCHANGED <<seen, steps, c, script, now, readyCh, cur, nreq, fetched, renew, target, files, pcR, pcG, gcall, ng>>
+                     /\ UNCHANGED <<seen, steps, c, script, now, readyCh, cur, nreq, fetched, renew, target, files, pcR, pcG>>
 Req(from, to) == /\ pcRun = from /\ pcRun' = to /\ nreq' = nreq + 1 /\ q' = FALSE
                  /\ Emit([ev |-> "req", n |-> nreq + 1, now |-> now,
                           keyid |-> IF Variant = "keyReuse" /\ nreq >= 1 THEN 1 ELSE nreq + 1])
-                 /\ UNCHANGED <<seen, steps, script, now, rw, readyCh, cur, fetched, renew, target, files, pcR, pcG, gcall, ng>>
+                 /\ UNCHANGED <<seen, steps, script, now, rw, readyCh, cur, fetched, renew, target, files, pcR, pcG>>
 IssueEv(a) == [ev |-> "issue", n |-> nreq, ok |-> a.kind # "err", chain |-> a.kind # "empty", hasid |-> a.kind \notin {"noid", "empty"},
                nb |-> now + a.nb, na |-> now + a.na, anchors |-> nreq]
 (* the issuer answers; fetchIdentityCertificate checks the answer and writes the identity directory *)
@@ -82,30 +83,30 @@ Ans(from, okTo, failTo) ==
           /\ IF Dir /\ Variant = "idLate" /\ a.kind = "noid"
              THEN files' = nreq /\ c' = CNext(CNext(c, IssueEv(a)), [ev |-> "files", set |-> "set", key |-> nreq, cert |-> nreq, ca |-> nreq])
              ELSE UNCHANGED files /\ Emit(IssueEv(a))
-  /\ UNCHANGED <<seen, steps, script, now, rw, readyCh, nreq, renew, pcR, pcG, gcall, ng>>
+  /\ UNCHANGED <<seen, steps, script, now, rw, readyCh, nreq, renew, pcR, pcG>>
 RunPublish == /\ pcRun = "publish" /\ pcRun' = "close" /\ cur' = nreq /\ q' = FALSE
-              /\ UNCHANGED <<seen, steps, c, script, now, rw, readyCh, nreq, fetched, renew, target, files, pcR, pcG, gcall, ng>>
+              /\ UNCHANGED <<seen, steps, c, script, now, rw, readyCh, nreq, fetched, renew, target, files, pcR, pcG>>
 RunClose == /\ pcRun = "close" /\ pcRun' = "unlock" /\ readyCh' = TRUE /\ q' = FALSE
-            /\ UNCHANGED <<seen, steps, c, script, now, rw, cur, nreq, fetched, renew, target, files, pcR, pcG, gcall, ng>>
+            /\ UNCHANGED <<seen, steps, c, script, now, rw, cur, nreq, fetched, renew, target, files, pcR, pcG>>
 RunUnlock == /\ pcRun = "unlock" /\ pcRun' = "arm" /\ rw' = [rw EXCEPT !.w = FALSE] /\ q' = FALSE
              /\ renew' = Half(fetched.nb, fetched.na)
-             /\ UNCHANGED <<seen, steps, c, script, now, readyCh, cur, nreq, fetched, target, files, pcR, pcG, gcall, ng>>
+             /\ UNCHANGED <<seen, steps, c, script, now, readyCh, cur, nreq, fetched, target, files, pcR, pcG>>
 RunInitFail == /\ pcRun = "initFail" /\ pcRun' = "done" /\ readyCh' = TRUE /\ rw' = [rw EXCEPT !.w = FALSE] /\ q' = FALSE
                /\ Emit([ev |-> "run_ret", err |-> TRUE])
-               /\ UNCHANGED <<seen, steps, script, now, cur, nreq, fetched, renew, target, files, pcR, pcG, gcall, ng>>
+               /\ UNCHANGED <<seen, steps, script, now, cur, nreq, fetched, renew, target, files, pcR, pcG>>
 (* rotation loop - spiffe.go runRotation *)
 RotArm == /\ pcRun = "arm" /\ pcRun' = "wait" /\ target' = now + Min2(60, renew - now) /\ q' = FALSE
-          /\ UNCHANGED <<seen, steps, c, script, now, rw, readyCh, cur, nreq, fetched, renew, files, pcR, pcG, gcall, ng>>
+          /\ UNCHANGED <<seen, steps, c, script, now, rw, readyCh, cur, nreq, fetched, renew, files, pcR, pcG>>
 RotWake == /\ pcRun = "wait" /\ now >= target /\ pcRun' = (IF now < renew THEN "arm" ELSE "req2") /\ q' = FALSE
-           /\ UNCHANGED <<seen, steps, c, script, now, rw, readyCh, cur, nreq, fetched, renew, target, files, pcR, pcG, gcall, ng>>
+           /\ UNCHANGED <<seen, steps, c, script, now, rw, readyCh, cur, nreq, fetched, renew, target, files, pcR, pcG>>
 RotRetry == /\ pcRun = "retry" /\ now >= target /\ pcRun' = "arm" /\ q' = FALSE
-            /\ UNCHANGED <<seen, steps, c, script, now, rw, readyCh, cur, nreq, fetched, renew, target, files, pcR, pcG, gcall, ng>>
+            /\ UNCHANGED <<seen, steps, c, script, now, rw, readyCh, cur, nreq, fetched, renew, target, files, pcR, pcG>>
 SwapReq == /\ pcRun = "swapReq" /\ pcRun' = "swapWait" /\ rw' = [rw EXCEPT !.ww = TRUE] /\ q' = FALSE
-           /\ UNCHANGED <<seen, steps, c, script, now, readyCh, cur, nreq, fetched, renew, target, files, pcR, pcG, gcall, ng>>
+           /\ UNCHANGED <<seen, steps, c, script, now, readyCh, cur, nreq, fetched, renew, target, files, pcR, pcG>>
 Swap == /\ pcRun = "swap" /\ pcRun' = "arm" /\ cur' = nreq /\ rw' = [rw EXCEPT !.w = FALSE] /\ q' = FALSE
         /\ renew' = IF Variant = "rebase" /\ Half(fetched.nb, fetched.na) <= now
                     THEN now + ((fetched.na - now) \div 2) ELSE Half(fetched.nb, fetched.na)
-        /\ UNCHANGED <<seen, steps, c, script, now, readyCh, nreq, fetched, target, files, pcR, pcG, gcall, ng>>
+        /\ UNCHANGED <<seen, steps, c, script, now, readyCh, nreq, fetched, target, files, pcR, pcG>>
 RunInternal == \/ RunLockReq \/ LockAcq("lockWait", "req") \/ Req("req", "ans") \/ Ans("ans", "publish", "initFail")
                \/ RunPublish \/ RunClose \/ RunUnlock \/ RunInitFail
                \/ RotArm \/ RotWake \/ RotRetry \/ Req("req2", "ans2") \/ Ans("ans2", "swapReq", "retry")
@@ -116,10 +117,10 @@ RunBlocked == \/ pcRun \in {"idle", "done"}
 
 (* ------------------------------ Ready ------------------------------ *)
 ReadyCall(r) == /\ pcR[r] = "idle" /\ r <= NReady /\ pcR' = [pcR EXCEPT ![r] = "wait"] /\ Emit([ev |-> "ready_call", r |-> r]) /\ q' = FALSE
-                /\ UNCHANGED <<seen, steps, script, now, pcRun, rw, readyCh, cur, nreq, fetched, renew, target, files, pcG, gcall, ng>>
+                /\ UNCHANGED <<seen, steps, script, now, pcRun, rw, readyCh, cur, nreq, fetched, renew, target, files, pcG>>
 ReadyRet(r) == /\ pcR[r] = "wait" /\ readyCh /\ pcR' = [pcR EXCEPT ![r] = "done"] /\ q' = FALSE
                /\ Emit([ev |-> "ready_ret", r |-> r, err |-> FALSE])
-               /\ UNCHANGED <<seen, steps, script, now, pcRun, rw, readyCh, cur, nreq, fetched, renew, target, files, pcG, gcall, ng>>
+               /\ UNCHANGED <<seen, steps, script, now, pcRun, rw, readyCh, cur, nreq, fetched, renew, target, files, pcG>>
 ReadyBlocked(r) == pcR[r] \in {"idle", "done"} \/ (pcR[r] = "wait" /\ ~readyCh)
 
 (* ------------------------------ Get / consumers ------------------------------ *)
@@ -127,28 +128,31 @@ CanRLock == ~rw.w /\ ~rw.ww
 ConsStart(g) == /\ IsCons(g) /\ pcG[g] = "idle" /\ pcR[ConsReady(g)] = "idle"
                 /\ pcR' = [pcR EXCEPT ![ConsReady(g)] = "wait"] /\ pcG' = [pcG EXCEPT ![g] = "rwait"] /\ q' = FALSE
                 /\ Emit([ev |-> "ready_call", r |-> ConsReady(g)])
-                /\ UNCHANGED <<seen, steps, script, now, pcRun, rw, readyCh, cur, nreq, fetched, renew, target, files, gcall, ng>>
-GetCall(g) == /\ \/ ~IsCons(g) /\ pcG[g] = "idle"
-                 \/ /\ ~IsCons(g) /\ pcG[g] = "done" /\ ng < NGet + NCons + MaxObs      \* an observer calls again, when
-                    /\ (pcRun \notin {"wait", "retry"} \/ seen # cur)                     \* there may be something new to see
+                /\ UNCHANGED <<seen, steps, script, now, pcRun, rw, readyCh, cur, nreq, fetched, renew, target, files>>
+(* To keep the timeline configurations finite and small, an observer calls while the clock has not moved yet, *)
+(* while a renewal is in flight, or when there may be something new to see; the clock moves only between such calls, and *)
+(* only once a new SVID has been looked at.                                                                    *)
+MayObserve == now = 0 \/ pcRun \in {"ans2", "swapReq", "swapWait", "swap"} \/ seen # cur
+GetCall(g) == /\ \/ ~IsCons(g) /\ pcG[g] = "idle" /\ MayObserve
+                 \/ ~IsCons(g) /\ pcG[g] = "done" /\ MaxObs > 0 /\ MayObserve     \* an observer calls again (same id: the monitor keeps the last call)
                  \/ IsCons(g) /\ pcG[g] = "rwait" /\ pcR[ConsReady(g)] = "done"
-              /\ ng' = ng + 1 /\ gcall' = [gcall EXCEPT ![g] = ng + 1] /\ pcG' = [pcG EXCEPT ![g] = "enter"] /\ q' = FALSE
-              /\ Emit([ev |-> "get_call", g |-> ng + 1, after |-> IF IsCons(g) THEN ConsReady(g) ELSE 0])
+              /\ pcG' = [pcG EXCEPT ![g] = "enter"] /\ q' = FALSE
+              /\ Emit([ev |-> "get_call", g |-> g, after |-> IF IsCons(g) THEN ConsReady(g) ELSE 0])
               /\ UNCHANGED <<seen, steps, script, now, pcRun, rw, readyCh, cur, nreq, fetched, renew, target, files, pcR>>
 GetEnter(g) == /\ pcG[g] = "enter" /\ q' = FALSE
                /\ IF GetFix THEN readyCh /\ pcG' = [pcG EXCEPT ![g] = "rlock"] /\ UNCHANGED rw
                             ELSE CanRLock /\ pcG' = [pcG EXCEPT ![g] = "locked"] /\ rw' = [rw EXCEPT !.rd = @ \cup {g}]
-               /\ UNCHANGED <<seen, steps, c, script, now, pcRun, readyCh, cur, nreq, fetched, renew, target, files, pcR, gcall, ng>>
+               /\ UNCHANGED <<seen, steps, c, script, now, pcRun, readyCh, cur, nreq, fetched, renew, target, files, pcR>>
 GetSecond(g) == /\ q' = FALSE
                 /\ \/ pcG[g] = "rlock" /\ CanRLock /\ rw' = [rw EXCEPT !.rd = @ \cup {g}]
                    \/ pcG[g] = "locked" /\ readyCh /\ UNCHANGED rw
                 /\ pcG' = [pcG EXCEPT ![g] = "held"]
-                /\ UNCHANGED <<seen, steps, c, script, now, pcRun, readyCh, cur, nreq, fetched, renew, target, files, pcR, gcall, ng>>
+                /\ UNCHANGED <<seen, steps, c, script, now, pcRun, readyCh, cur, nreq, fetched, renew, target, files, pcR>>
 GetRet(g) == /\ pcG[g] = "held" /\ pcG' = [pcG EXCEPT ![g] = "done"] /\ rw' = [rw EXCEPT !.rd = @ \ {g}] /\ q' = FALSE
              /\ seen' = cur
-             /\ Emit([ev |-> "get_ret", g |-> gcall[g], svid |-> cur, err |-> cur = 0,
+             /\ Emit([ev |-> "get_ret", g |-> g, svid |-> cur, err |-> cur = 0,
                       key |-> IF cur = 0 THEN 0 ELSE IF Variant = "keyReuse" THEN 1 ELSE cur])
-             /\ UNCHANGED <<steps, script, now, pcRun, readyCh, cur, nreq, fetched, renew, target, files, pcR, gcall, ng>>
+             /\ UNCHANGED <<steps, script, now, pcRun, readyCh, cur, nreq, fetched, renew, target, files, pcR>>
 GetInternal(g) == GetEnter(g) \/ GetSecond(g) \/ GetRet(g) \/ (IsCons(g) /\ GetCall(g))
 GetBlocked(g) == \/ pcG[g] \in {"idle", "done"}
                  \/ pcG[g] = "rwait" /\ pcR[ConsReady(g)] # "done"
@@ -163,11 +167,14 @@ NPending == Cardinality({r \in RIds : pcR[r] = "wait"}) + Cardinality({g \in GId
 QuiesceEvs(c0) == CNext(CNext(c0, FilesEv), [ev |-> "quiescent"])
 Quiesce == /\ Quiet /\ ~q /\ q' = TRUE
            /\ c' = IF AllStarted THEN CNext(QuiesceEvs(c), [ev |-> "stuck", n |-> NPending]) ELSE QuiesceEvs(c)
-           /\ UNCHANGED <<seen, steps, script, now, pcRun, rw, readyCh, cur, nreq, fetched, renew, target, files, pcR, pcG, gcall, ng>>
-Step(d) == /\ Quiet /\ pcRun \in {"wait", "retry"} /\ now + d <= Horizon
+           /\ UNCHANGED <<seen, steps, script, now, pcRun, rw, readyCh, cur, nreq, fetched, renew, target, files, pcR, pcG>>
+MaxOf(S) == CHOOSE x \in S : \A y \in S : y <= x
+Step(d) == /\ Quiet /\ pcRun \in {"wait", "retry"} /\ now + d <= Min2(Horizon, MaxTicks * MaxOf(steps))
+           /\ \A g \in GIds : pcG[g] \in {"idle", "done"}
+           /\ (seen = cur \/ ~\E g \in GIds : ~IsCons(g) /\ (pcG[g] = "idle" \/ MaxObs > 0))
            /\ now' = now + d /\ q' = FALSE
            /\ c' = CNext(QuiesceEvs(c), [ev |-> "adv", now |-> now + d])
-           /\ UNCHANGED <<seen, steps, script, pcRun, rw, readyCh, cur, nreq, fetched, renew, target, files, pcR, pcG, gcall, ng>>
+           /\ UNCHANGED <<seen, steps, script, pcRun, rw, readyCh, cur, nreq, fetched, renew, target, files, pcR, pcG>>
 
 Next == \/ RunCall \/ RunInternal
         \/ \E r \in RIds : ReadyCall(r) \/ ReadyRet(r)
